@@ -10,7 +10,8 @@ into generic data with integral numbers as int64 — the harness's `viaJSON`), w
 the documentation of encoding/json: it is the *reference* of property C18, modelled, not verified; both
 are tied to the real code by the `rfl` domain (`rfl.conv`, `rfl.json`).
 
-Not modelled: custom marshalers / UnstructuredConverter, omitzero, uint64 (a `uint` is 64 bits wide and
+Not modelled: a `uint` of 2^63 or more on the JSON side (the reference decodes it into a float64; the
+library wraps it to a negative int64: finding D23), custom marshalers / UnstructuredConverter, omitzero, uint64 (a `uint` is 64 bits wide and
 is read as `int64(uint)`, wrapping from 2^63 on), arrays, non-string map keys,
 cyclic data. A `float32` carries its exact value and the float64 nearest to its shortest decimal
 (strconv's `FormatFloat(…, 32)`, an external function: the harness supplies it).
